@@ -107,6 +107,9 @@ def run_cli(repo, outfile=None, lst=False, implicit_bin=False, emitted=None, com
             if d == "builtins.print":
                 events.append(("print", "stderr" if kwargs.get("file") is not None and getattr(kwargs.get("file"), "dotted", "") == "sys.stderr" else "stdout"))
                 return None
+            if d in ("sys.stderr.write", "sys.stdout.write"):
+                events.append(("print", "stderr" if d.startswith("sys.stderr") else "stdout"))
+                return None
         return NotImplemented
     I.call_hook = hook
     I.summaries["devices::open_device"] = lambda I_, fn, a, k: open_model(I_, a, k)
